@@ -282,7 +282,52 @@ func (global *Ast) compilePipelineDecs() error {
 			errs = append(errs, err)
 		}
 	}
-	return errs.If()
+	if err := errs.If(); err != nil {
+		return err
+	}
+	return global.checkPipelineRecursion()
+}
+
+// checkPipelineRecursion returns an error if a pipeline calls itself through
+// other pipelines.  (Direct self-calls are rejected when the pipeline is
+// compiled.)  Building the call graph of such a program would never end.
+func (global *Ast) checkPipelineRecursion() error {
+	const (
+		unvisited = iota
+		active
+		done
+	)
+	state := make(map[*Pipeline]int, len(global.Pipelines))
+	var visit func(*Pipeline) error
+	visit = func(pipeline *Pipeline) error {
+		state[pipeline] = active
+		for _, call := range pipeline.Calls {
+			callee, ok := global.Callables.Table[call.DecId].(*Pipeline)
+			if !ok || callee == nil {
+				continue
+			}
+			switch state[callee] {
+			case active:
+				return global.err(call,
+					"RecursiveCallError: Pipeline %s calls itself through %s.",
+					callee.Id, pipeline.Id)
+			case unvisited:
+				if err := visit(callee); err != nil {
+					return err
+				}
+			}
+		}
+		state[pipeline] = done
+		return nil
+	}
+	for _, pipeline := range global.Pipelines {
+		if state[pipeline] == unvisited {
+			if err := visit(pipeline); err != nil {
+				return err
+			}
+		}
+	}
+	return nil
 }
 
 // Check all pipeline input params are bound in a call statement.
